@@ -410,9 +410,73 @@ def check_de_marks(w, obj, problems):
             check_de_marks(w, v, problems)
 
 
+def run_nofield_variants(ctx, n):
+    """a discriminator WITHOUT a field tries the variants in turn: each variant's pre-deserialize hook runs once per
+    attempt, and the attempts of one call are the same whether the call is the first one (variants compiled on the
+    way) or a later one.  Families: 2-4 variants, plain dataclasses or mixin subclasses, Config- or Annotated-based."""
+    import dataclasses
+    import typing
+
+    from mashumaro import DataClassDictMixin
+    from mashumaro.config import BaseConfig
+    from mashumaro.types import Discriminator
+
+    rng = ctx.rng
+    for i in range(n):
+        nv = rng.randint(2, 4)
+        mode = rng.choice(["config", "annotated-plain", "annotated-mixin"])
+        hit = rng.randrange(nv + 1)     # which variant accepts the input (nv = none does)
+        case = {"nofield": {"variants": nv, "mode": mode, "accepts": hit}}
+        ctx.count(case, True, kind=f"nofield:{mode}")
+        trace = []
+
+        def mk(name, bases, ann, ns):
+            def pre(cls, d, _n=name):
+                trace.append(f"pre {_n}")
+                return d
+
+            c = type(name, bases, {"__annotations__": ann, "__module__": __name__, "__pre_deserialize__": classmethod(pre), **ns})
+            globals()[name] = c
+            return dataclasses.dataclass(c)
+
+        names = []
+        try:
+            if mode == "config":
+                Base = mk(f"NF{i}_B", (DataClassDictMixin,), {}, {"Config": type("Config", (BaseConfig,), {"discriminator": Discriminator(include_subtypes=True)})})
+            else:
+                Base = mk(f"NF{i}_B", (DataClassDictMixin,) if mode == "annotated-mixin" else (), {}, {})
+            names.append(Base.__name__)
+            for k in range(nv):
+                names.append(mk(f"NF{i}_V{k}", (Base,), {f"k{k}": int}, {}).__name__)
+            if mode == "config":
+                call = lambda d: Base.from_dict(d)   # noqa: E731
+            else:
+                H = mk(f"NF{i}_H", (DataClassDictMixin,), {"x": typing.Annotated[Base, Discriminator(include_subtypes=True)]}, {})
+                names.append(H.__name__)
+                call = lambda d: H.from_dict({"x": d})   # noqa: E731
+            data = {f"k{hit}": 1} if hit < nv else {"zz": 1}
+            runs = []
+            for _ in range(3):
+                trace.clear()
+                try:
+                    r = call(dict(data))
+                    out = type(getattr(r, "x", r)).__name__
+                except Exception as e:  # noqa
+                    out = type(e).__name__
+                runs.append((out, [t for t in trace if "_V" in t]))
+        finally:
+            for nm in names:
+                globals().pop(nm, None)
+        if runs[0] != runs[1] or runs[1] != runs[2]:
+            ctx.violation(case, {"first_call": runs[0], "second_call": runs[1], "third_call": runs[2]}, "the hooks run by a call do not depend on whether it is the first call", "hooks of a variant ran twice on the first call", lambda f: False)
+        elif any(runs[0][1].count(t) > 1 for t in runs[0][1]):
+            ctx.violation(case, {"call": runs[0]}, "a variant is attempted at most once per call", "a variant's pre hook ran twice for one input", lambda f: False)
+
+
 def run(ctx):
     ctx.rule = RULE
     ctx.lean_check("Mashu.Props.C19", THEOREMS, extra_targets=["Mashu.Dispatch"])
+    run_nofield_variants(ctx, 60 if ctx.tier == "quick" else 600)
     n = 500 if ctx.tier == "quick" else 9000
     done = 0
     while done < n and ctx.time_left() > 40:
@@ -431,6 +495,8 @@ def replay(ctx, body):
         from . import c19_recursive
 
         c19_recursive.run_recursive(ctx, 60)
+    elif c and "nofield" in c:
+        run_nofield_variants(ctx, 60)
     elif c:
         run_families(ctx, [c["family"]])
     return ctx.finish()
